@@ -9,8 +9,10 @@ for id in "$@"; do
     name=${id}_m$k
     feats=""
     grep -qi "features devices\|--features devices" $d/m${k}_demo.rs $d/m${k}_meta.txt 2>/dev/null && feats="--features devices"
+    [ "$name" = "C19_m1" ] && feats="--demo-args --no-default-features\ --features\ std"
+    [ "$name" = "C19_m2" ] && feats="--demo-args --no-default-features\ --features\ alloc,libm"
     echo "=== $name ($feats)"
-    python3 tools/mutants.py confirm $d/m${k}_patch.diff $d/m${k}_demo.rs $feats > work/mutants/$name.confirm 2>&1
+    eval python3 tools/mutants.py confirm $d/m${k}_patch.diff $d/m${k}_demo.rs $feats > work/mutants/$name.confirm 2>&1
     tail -1 work/mutants/$name.confirm
     python3 tools/mutants.py run $d/m${k}_patch.diff > work/mutants/$name.run 2>&1
     grep "DETECTED-BY" work/mutants/$name.run
